@@ -41,13 +41,23 @@ MixNs == {1, 9, 200, 254, 255, 256, 257, 300, 511, 512, 1000} \cup (IF Quick THE
 SwdKinds == {"true", "false", "str1", "one", "negzero", "nan", "null", "undef", "float1", "strs1", "cmp"}
 SwdTemplates == {"swd_" \o k : k \in SwdKinds}
 SwdNs == {1, 2, 8, 15, 16, 17, 32, 100, 200} \cup (IF Quick THEN {} ELSE {3, 64, 128, 250, 252, 256, 300})
+\* flat operator chains with MIXED operators (n links on one left spine): the syntax tree is n deep; beyond the nesting the
+\* front end can handle they are refused with MemoryLimitError "Maximum call stack size exceeded" before anything runs
+ChainTemplates == {"chain_addsub", "chain_mulsub", "chain_cmp", "chain_addsub_fn"}
+ChainNs == {1, 2, 3, 50, 99, 100, 101, 102, 150, 200, 300} \cup (IF Quick THEN {1000} ELSE {98, 103, 128, 250, 256, 257, 400, 1000, 5000})
+\* hoisting across a long program: a function / var used ABOVE its declaration with n statements in between (programs compiled
+\* in pieces must still bind declarations on entry to the PROGRAM)
+HoistTemplates == {"hoist_call", "hoist_redecl", "hoist_typeof", "hoist_var", "hoist_call_names", "hoist_in_fn"}
+HoistNs == {1, 50, 120, 130, 200, 700} \cup (IF Quick THEN {2000} ELSE {126, 127, 128, 129, 255, 256, 650, 1000, 5000, 8000})
 Templates == OperandTemplates \cup SizeTemplates \cup WrapTemplates \cup ExplicitTemplates \cup MixTemplates \cup SwdTemplates
+             \cup ChainTemplates \cup HoistTemplates
 
 OperandNs == {1, 2, 127, 128, 200} \cup (250..260) \cup (IF Quick THEN {300, 1000} ELSE {300, 511, 512, 513, 1000, 5000, 65537})
 SizeNs == {1, 2, 50} \cup (IF Quick THEN {1000, 6000, 8192, 11000}
                            ELSE {1000, 3000, 5000, 5460, 5461, 5462, 6000, 6553, 6554, 7000, 7281, 7282, 8000, 8190, 8191, 8192, 8193, 9000, 9362, 9363, 10000, 10922, 10923, 11000, 13107, 13108, 16384, 20000, 33000, 100000})
 WrapNs == {1, 200, 255, 256, 257} \cup (IF Quick THEN {} ELSE {254, 258, 300, 600, 1000})
-Ns(t) == IF t \in OperandTemplates THEN OperandNs ELSE IF t \in WrapTemplates THEN WrapNs ELSE IF t \in MixTemplates THEN MixNs ELSE IF t \in SwdTemplates THEN SwdNs ELSE SizeNs
+Ns(t) == IF t \in OperandTemplates THEN OperandNs ELSE IF t \in WrapTemplates THEN WrapNs ELSE IF t \in MixTemplates THEN MixNs ELSE IF t \in SwdTemplates THEN SwdNs ELSE IF t \in ChainTemplates THEN ChainNs
+         ELSE IF t \in HoistTemplates THEN HoistNs ELSE SizeNs
 PayloadOf(t) == CHOOSE p \in Payloads : \E w \in Wraps : t = "w_" \o p \o "_" \o w
 
 \* closed form of the template's result (small integers; see checks/c14_driver.py for the program text)
@@ -55,6 +65,13 @@ M7(x) == x % 7
 Closed(t, n) ==
   CASE t \in WrapTemplates -> (IF PayloadOf(t) = "consts" THEN VStr(U("c") \o IntText(n - 1)) ELSE VInt(n))
     [] t \in MixTemplatesAll -> VInt(n)
+    [] t \in {"chain_addsub", "chain_addsub_fn"} -> VInt(1000 + (IF n % 2 = 1 THEN (n + 1) \div 2 ELSE 0 - (n \div 2)))   \* 1000 + 1 - 2 + 3 - ... n
+    [] t = "chain_mulsub" -> VInt(42)                    \* 84 * 1 * ... * 1 - 42
+    [] t = "chain_cmp" -> VBool(TRUE)                    \* ('' + 0 + 1 + ...) < '~'
+    [] t \in {"hoist_call", "hoist_call_names", "hoist_in_fn"} -> VInt(100000 + n)
+    [] t = "hoist_redecl" -> VInt(200000 + n)            \* the later declaration is the one bound on entry
+    [] t = "hoist_typeof" -> VInt(500000 + n)
+    [] t = "hoist_var" -> VStr(U("hoisted"))
     [] t \in {"swd_true", "swd_false", "swd_str1", "swd_nan", "swd_null", "swd_undef", "swd_cmp"} -> VStr(U("none"))
     [] t \in {"swd_one", "swd_float1"} -> VStr(IF n >= 2 THEN U("c1") ELSE U("none"))
     [] t = "swd_negzero" -> VStr(U("c0"))
@@ -97,7 +114,8 @@ EnumEmit == ph = "start" \/ PrintT(ToJson(cur))
 \* ---- Judge ----------------------------------------------------------------------------------------
 Recs == ndJsonDeserialize(IOEnv.OBS_FILE)
 \* r = [id, t, n, out: [o, v?], started: BOOLEAN (did the program's first statement run?), msglen]
-Refused(r) == r.out.o \in {"jserror", "syntax"} /\ ~r.started /\ r.msglen > 0
+Refused(r) == \/ r.out.o \in {"jserror", "syntax"} /\ ~r.started /\ r.msglen > 0
+              \/ r.t \in ChainTemplates /\ r.out.o = "memlimit" /\ ~r.started       \* nesting beyond the front end's stack: refused before anything runs
 Verdict(r) ==
   IF r.out.o = "value" THEN
         IF SameVal(r.out.v, Closed(r.t, r.n)) THEN "pass" ELSE "wrong-value"
